@@ -157,9 +157,17 @@ def side_effect_cases(ctx, rng):
                         ctx.spec_failures.append(("C13:freeze-modified-float-source", {"param": k, "weights": wq}))
             before = snapshot(fm)
             outs = []
-            for _ in range(3):
+            for rep in range(3):
                 o = fm(x)
                 outs.append(bits_of(o.dequantize() if hasattr(o, "dequantize") else o))
+                if rep == 0:
+                    # any input: also inputs of another float dtype (may be rejected by torch, must not leave traces)
+                    for odt in (torch.float16, torch.float32, torch.bfloat16):
+                        if odt != dt:
+                            try:
+                                fm(x.to(odt))
+                            except Exception:  # noqa
+                                pass
             after = snapshot(fm)
         ctx.evaluations += 1
         ctx.count(f"inference:{state}:acts={acts}")
